@@ -90,6 +90,8 @@ def _run(stmts: List[ast.stmt], env: Dict[str, ast.AST]) -> Tuple[Dict[str, ast.
     for i, s in enumerate(stmts):
         if isinstance(s, ast.Pass) or (isinstance(s, ast.Expr) and isinstance(s.value, ast.Constant)):
             continue
+        if isinstance(s, ast.FunctionDef):
+            continue
         if isinstance(s, ast.Assign) and len(s.targets) == 1 and isinstance(s.targets[0], ast.Name):
             env = dict(env)
             env[s.targets[0].id] = _subst(s.value, env)
@@ -169,20 +171,97 @@ def _run(stmts: List[ast.stmt], env: Dict[str, ast.AST]) -> Tuple[Dict[str, ast.
     return env, None
 
 
-def summarise_return(fn: ast.FunctionDef) -> Optional[ast.AST]:
-    if fn.decorator_list or fn.args.vararg or fn.args.kwarg:
+def summarise_return(fn: ast.FunctionDef, lenient: bool = False) -> Optional[ast.AST]:
+    """`lenient`: also read through a memoising decorator and past helper functions nested at the top of the body (their
+    names stay opaque free names of the result) - for a caller that wants this one function read, not every helper."""
+    # a memoising decorator hands back what the function returns
+    for d in fn.decorator_list:
+        dn = d.func if isinstance(d, ast.Call) else d
+        if not lenient or ast.unparse(dn) not in ('functools.lru_cache', 'lru_cache', 'functools.cache', 'cache'):
+            return None
+    if fn.args.vararg or fn.args.kwarg:
         return None
-    for n in ast.walk(fn):
+    own: List[ast.AST] = []
+    stack: List[ast.AST] = list(fn.body)
+    while stack:
+        n = stack.pop()
+        if lenient and isinstance(n, (ast.FunctionDef, ast.AsyncFunctionDef)) and n in fn.body:
+            continue            # a nested helper defined at the top of the body: its name stays an opaque free name
+        own.append(n)
+        stack.extend(ast.iter_child_nodes(n))
+    for n in own:
         if isinstance(n, (ast.Yield, ast.YieldFrom, ast.Await, ast.Global, ast.Nonlocal)):
             return None
-        if isinstance(n, (ast.FunctionDef, ast.AsyncFunctionDef, ast.ClassDef)) and n is not fn:
+        if isinstance(n, (ast.FunctionDef, ast.AsyncFunctionDef, ast.ClassDef)):
             return None
     try:
-        _env, r = _run(fn.body, {})
+        env, r = _run(fn.body, {})
     except NotSummarisable:
         return None
     except RecursionError:
         return None
     if r is None:
         return None
+    if lenient:
+        r = _inline_nested(fn, r, env)
     return ast.fix_missing_locations(ast.copy_location(r, fn))
+
+
+def _bind_call(h: ast.FunctionDef, node: ast.Call) -> Optional[Dict[str, ast.AST]]:
+    names = [a.arg for a in h.args.posonlyargs + h.args.args]
+    if len(node.args) > len(names) or any(isinstance(a, ast.Starred) for a in node.args):
+        return None
+    bound = dict(zip(names, node.args))
+    allp = names + [a.arg for a in h.args.kwonlyargs]
+    for kw in node.keywords:
+        if kw.arg is None or kw.arg in bound or kw.arg not in allp:
+            return None
+        bound[kw.arg] = kw.value
+    dflt = dict(zip(names[len(names) - len(h.args.defaults):], h.args.defaults))
+    for a, d in zip(h.args.kwonlyargs, h.args.kw_defaults):
+        if d is not None:
+            dflt[a.arg] = d
+    for p in allp:
+        if p not in bound:
+            if p in dflt and isinstance(dflt[p], ast.Constant):
+                bound[p] = dflt[p]
+            else:
+                return None
+    return bound
+
+
+def _inline_nested(fn: ast.FunctionDef, r: ast.AST, env: Dict[str, ast.AST]) -> ast.AST:
+    """Calls, in the summarised return value, of helpers nested at the top of `fn`'s body are replaced by those
+    helpers' own summaries (their free names read from `fn`'s locals; a helper passed as an argument and called
+    through the parameter is followed too)."""
+    nested = {s.name: s for s in fn.body if isinstance(s, ast.FunctionDef)}
+    if not nested:
+        return r
+    summ = {}
+    for k, h in nested.items():
+        rv = summarise_return(h, lenient=True)
+        if rv is not None:
+            summ[k] = rv
+
+    class T(ast.NodeTransformer):
+        changed = False
+
+        def visit_Call(self, node):
+            self.generic_visit(node)
+            if isinstance(node.func, ast.Name) and node.func.id in summ:
+                bound = _bind_call(nested[node.func.id], node)
+                if bound is not None:
+                    T.changed = True
+                    # the helper's own free names are read from the enclosing locals; then its parameters from the call
+                    outer = {k: v for k, v in env.items() if k not in bound}
+                    body = _subst(summ[node.func.id], outer)
+                    return _subst(body, bound)
+            return node
+
+    out = copy.deepcopy(r)
+    for _ in range(4):
+        T.changed = False
+        out = T().visit(out)
+        if not T.changed:
+            break
+    return ast.fix_missing_locations(out)
